@@ -83,3 +83,71 @@ pub fn recv(a: &[String]) {
         });
     }
 }
+
+/// Transport that accepts at most `max` bytes per write call (0 = everything): short writes are legal for Write / AsyncWrite.
+struct ShortPipe { inner: Pipe, max: usize }
+impl io::Read for ShortPipe { fn read(&mut self, b: &mut [u8]) -> io::Result<usize> { io::Read::read(&mut self.inner, b) } }
+impl io::Write for ShortPipe {
+    fn write(&mut self, b: &[u8]) -> io::Result<usize> {
+        let n = if self.max == 0 { b.len() } else { b.len().min(self.max) };
+        self.inner.out.extend_from_slice(&b[..n]);
+        Ok(n)
+    }
+    fn flush(&mut self) -> io::Result<()> { Ok(()) }
+}
+impl tokio::io::AsyncRead for ShortPipe {
+    fn poll_read(mut self: Pin<&mut Self>, _cx: &mut Context<'_>, buf: &mut tokio::io::ReadBuf<'_>) -> Poll<io::Result<()>> {
+        let me = &mut self.inner;
+        if me.next < me.segs.len() {
+            let seg = &mut me.segs[me.next];
+            let n = seg.len().min(buf.remaining());
+            buf.put_slice(&seg[..n]);
+            seg.drain(..n);
+            if seg.is_empty() { me.next += 1; }
+        }
+        Poll::Ready(Ok(()))
+    }
+}
+impl tokio::io::AsyncWrite for ShortPipe {
+    fn poll_write(mut self: Pin<&mut Self>, _cx: &mut Context<'_>, b: &[u8]) -> Poll<io::Result<usize>> {
+        Poll::Ready(io::Write::write(&mut *self, b))
+    }
+    fn poll_flush(self: Pin<&mut Self>, _cx: &mut Context<'_>) -> Poll<io::Result<()>> { Poll::Ready(Ok(())) }
+    fn poll_shutdown(self: Pin<&mut Self>, _cx: &mut Context<'_>) -> Poll<io::Result<()>> { Poll::Ready(Ok(())) }
+}
+
+/// sendlist <sync|async> <max bytes per write, 0 = all> <n> then n groups `<name> <argc> <args...>`:
+/// connect, then `send` (n = 1) or `send_list`; prints everything the transport received.
+pub fn sendlist(a: &[String]) {
+    use mpd_protocol::command::{Command, CommandList};
+    let max: usize = a[1].parse().unwrap();
+    let n: usize = a[2].parse().unwrap();
+    let mut i = 3;
+    let mut cmds = Vec::new();
+    for _ in 0..n {
+        let name = String::from_utf8(args_bytes(&a[i..i + 1])[0].clone()).unwrap();
+        let argc: usize = a[i + 1].parse().unwrap();
+        let mut c = Command::new(&name);
+        for k in 0..argc { c = c.argument(String::from_utf8(args_bytes(&a[i + 2 + k..i + 3 + k])[0].clone()).unwrap()); }
+        cmds.push(c);
+        i += 2 + argc;
+    }
+    let pipe = ShortPipe { inner: Pipe { segs: vec![b"OK MPD 0.23.5\n".to_vec()], next: 0, out: Vec::new(), reads: 0 }, max };
+    let single = a.get(i).map(|s| s == "single").unwrap_or(false);
+    let mut it = cmds.into_iter();
+    let first = it.next().unwrap();
+    if a[0] == "sync" {
+        let mut c = Connection::connect(pipe).expect("greeting");
+        let r = if single { c.send(first) } else { let mut l = CommandList::new(first); for x in it { l.add(x); } c.send_list(l) };
+        println!("send={}", if r.is_ok() { "ok" } else { "err" });
+        println!("wire={}", hex(&c.into_inner().inner.out));
+    } else {
+        let rt = tokio::runtime::Builder::new_current_thread().build().unwrap();
+        rt.block_on(async move {
+            let mut c = AsyncConnection::connect(pipe).await.expect("greeting");
+            let r = if single { c.send(first).await } else { let mut l = CommandList::new(first); for x in it { l.add(x); } c.send_list(l).await };
+            println!("send={}", if r.is_ok() { "ok" } else { "err" });
+            println!("wire={}", hex(&c.into_inner().inner.out));
+        });
+    }
+}
